@@ -244,6 +244,11 @@ func parentMain() {
 			out.Count("in_domain", fmt.Sprint(inDom))
 			out.Count("binding_constraints", fmt.Sprint(binding))
 			out.Count("known_class", strings.Join(classes, "+"))
+			if inDom {
+				out.Count("theorem_domain", theoremDomain(in))
+			} else {
+				out.Count("theorem_domain", "out-of-domain")
+			}
 			worst := ""
 			for _, v := range verdicts {
 				if v != "" && v != "-" {
